@@ -91,6 +91,11 @@ fn cmd_run(args: &[String]) {
     let out_dir = arg(args, "--out").expect("--out");
     let selfcheck: u64 = arg(args, "--selfcheck").unwrap_or("2").parse().unwrap();
     let max_s: f64 = arg(args, "--max-s").unwrap_or("100000").parse().unwrap();
+    // violation classes recorded as known findings for this property (runs that show only
+    // these are counted and sampled, not minimised, and do not stop the worker)
+    let known: Vec<String> = arg(args, "--known").map(|s| s.split(',').filter(|x| !x.is_empty()).map(|x| x.to_string()).collect()).unwrap_or_default();
+    let mut known_hits: BTreeMap<String, u64> = BTreeMap::new();
+    let mut known_samples: Vec<serde_json::Value> = vec![];
     let cur_path = format!("{out_dir}/cur.{}", std::process::id());
     std::fs::create_dir_all(out_dir).unwrap();
     let t0 = std::time::Instant::now();
@@ -155,8 +160,22 @@ fn cmd_run(args: &[String]) {
                 harness_errors.push(format!("seed {seed}: determinism self-check mismatch"));
             }
         }
-        if !o.viol.is_empty() {
-            let classes = o.classes();
+        if !o.viol.is_empty() && o.classes().iter().all(|c| known.contains(c)) {
+            for c in o.classes() {
+                *known_hits.entry(c).or_insert(0) += 1;
+            }
+            if known_samples.len() < 1 {
+                let mut kc = c.clone();
+                kc.expect = o.classes();
+                let dir = format!("{out_dir}/replays");
+                std::fs::create_dir_all(&dir).unwrap();
+                let path = format!("{dir}/{prop}-{seed}.known.json");
+                std::fs::write(&path, serde_json::to_string_pretty(&kc).unwrap()).unwrap();
+                known_samples.push(serde_json::json!({"seed": seed, "classes": kc.expect, "replay": path, "detail": o.viol.first().map(|v| v.detail.clone()), "signature": signature(&kc, &o)}));
+            }
+        } else if !o.viol.is_empty() {
+            // minimise with respect to the classes that are not known findings
+            let classes: Vec<String> = o.classes().into_iter().filter(|c| !known.contains(c)).collect();
             let small = shrink::shrink(&c, &classes, &run_any, 3000);
             let mut small = small;
             let o2 = run_any(&small).unwrap();
@@ -177,6 +196,7 @@ fn cmd_run(args: &[String]) {
     let res = serde_json::json!({
         "prop": prop, "from": from, "to": to, "runs": runs, "steps": steps, "revisions": revisions,
         "stats": stats, "classes": classes_seen, "violations": violations, "samples": samples,
+        "known_hits": known_hits, "known_samples": known_samples,
         "selfcheck_runs": selfcheck_runs, "harness_errors": harness_errors, "wall_s": t0.elapsed().as_secs_f64(),
         "digest": format!("{digest_all:016x}"),
     });
@@ -196,27 +216,10 @@ fn cmd_run(args: &[String]) {
     dump("nontrivial.bin", &nontrivial_hashes);
 }
 
-/// Stable signature of a minimised violation, used to match known findings.
+/// Stable signature of a minimised violation, used to match known findings: the property and
+/// the (diagnosis-refined) violation classes.
 pub fn signature(c: &Case, o: &RunOut) -> String {
     let mut classes = o.classes();
     classes.sort();
-    let mut kinds: Vec<String> = c.prog.nodes.iter().filter(|n| !n.ops.is_empty()).map(|n| format!("{:?}", n.kind)).collect();
-    kinds.sort();
-    kinds.dedup();
-    let mut ops: Vec<&'static str> = vec![];
-    for n in &c.prog.nodes {
-        for op in &n.ops {
-            ops.push(match op {
-                prog::Op::Untracked { .. } => "Untracked",
-                prog::Op::NewTs { .. } => "NewTs",
-                prog::Op::Intern { .. } => "Intern",
-                prog::Op::Specify { .. } => "Specify",
-                prog::Op::Acc { .. } => "Acc",
-                _ => continue,
-            });
-        }
-    }
-    ops.sort();
-    ops.dedup();
-    format!("{}|{}|kinds={}|ops={}", c.property, classes.join("+"), kinds.join(","), ops.join(","))
+    format!("{}|{}", c.property, classes.join("+"))
 }
